@@ -862,6 +862,10 @@ class Frame(object):
                 if doppler_smearing:
                     ts = self.ts_ext
                 path = path(ts)
+                if isinstance(path, np.ndarray):
+                    # As floats, like an array path: differences of unsigned integer frequencies 
+                    # returned by the function would wrap around
+                    path = path.astype(float)
         elif isinstance(path, (list, np.ndarray)):
             # As floats: differences of unsigned integer frequencies would wrap around
             path = np.array(path, dtype=float)
